@@ -494,7 +494,10 @@ loop:
 				break loop
 			}
 			quiet := time.Since(time.Unix(0, lastEvent.Load())) > idle && len(reactor.GetStateTable()) == 0 &&
-				(len(sp.LQRows) == 0 || runN > 1 || sawInsert.Load())
+				(len(sp.LQRows) == 0 || sawInsert.Load() || (runN > 1 && time.Since(t0) > 12*time.Second))
+			// (a restarted job may have nothing left to hand out: then no insert ever comes and 12 s decide;
+			// on a loaded machine the queue can take longer than the idle window to hand out its first row - deciding
+			// "quiescent" before that left the rows unfetched and made the restart monitors of C04 fire falsely)
 			if (sp.Expect > 0 && int(finished.Load()) >= sp.Expect && quiet) || (sp.Expect == 0 && quiet) {
 				{ // a stop point that was never reached: stop at quiescence all the same
 					res.QuiescentAtMs = time.Since(t0).Milliseconds()
